@@ -26,8 +26,10 @@ Mutants tried on a private copy (VERIF_REPO=/tmp/repo_c10), all reported (exit 1
       C10Solve proofs + correspondence + row-of-Rx=Qᵀb monitor
   Anderson α: `γ(i)−γ(0)`, `1−γ(0)`; `G.col(ring_head()) = g`; reset copy guard inverted; `std::max(n, memory)`
       -> C10Anderson / C10History proofs or shape check + correspondence + affine / alignment / size monitors
-  (audit follow-up, quick, exit 1 each) threshold `<`→`<=`, back-substitution sign, α mid telescoping, `r(i) = s`
-      -> C10Solve / C10Anderson proofs or skeleton check + row / affine / ‖QR−A‖ monitors
+  (audit follow-up, on the patched add_column / solve_col, exit 1 each) `norm_q > 0`→`>=` / `<`; `<=`→`<` in solve_col;
+  dropped `else q.setZero()`; `q.setOnes()`; `r(q_idx) = 1`; back-substitution sign; dropped applyOnTheRight
+      -> C10Add / C10Solve proofs (regenerated lmqrAddNormalize / lmqrSolveSkip) or shape check + NaN / zero-pivot /
+         ‖QR−A‖ / ‖QᵀQ−I‖ / row monitors
 
 The first ops of every run are ZERO_SCALE_OPS (scale_R(0), then solve with tol > 0 and tol = 0).
 """
@@ -56,7 +58,7 @@ KEY_DEP = 'C10-add_column-dependent-column-division-by-zero-norm_q'
 KEY_ZPIV = 'C10-solve_col-exact-zero-pivot-division-tol0'
 STATS = {'orth_checked': 0, 'orth_skipped_illcond': 0, 'solve_checked': 0, 'solve_thresholded': 0,
          'poisoned_skipped': 0, 'aa_checked': 0, 'aa_ls_checked': 0, 'aa_ls_skipped': 0,
-         'dependent_adds': 0, 'zero_pivot_divisions': 0, 'exhaustive_nodes': 0, 'max_qr_err': 0.0, 'max_orth_err': 0.0,
+         'dependent_adds': 0, 'zero_pivot_divisions': 0, 'solve_dependent_checked': 0, 'exhaustive_nodes': 0, 'max_qr_err': 0.0, 'max_orth_err': 0.0,
          'max_normal_eq': 0.0}
 
 
@@ -388,18 +390,17 @@ def qr_monitor(kind, t, o, S):
         A = np.array(S['win'], dtype=float).T
         bb = np.array(b)
         xs = np.array(x[:K])
-        skipped = [r for r in range(K) if abs(R[r, r]) < tol]
+        skipped = [r for r in range(K) if abs(R[r, r]) <= tol]
         for r in skipped:
             if x[r] != 0.0:
-                return f'pivot |R[{r},{r}]| = {abs(R[r, r])!r} < tol = {tol!r} but x[{r}] = {x[r]!r} ≠ 0'
+                return f'pivot |R[{r},{r}]| = {abs(R[r, r])!r} ≤ tol = {tol!r} but x[{r}] = {x[r]!r} ≠ 0'
         if not finite(x[:K]):
             if any(R[r, r] == 0.0 for r in range(K) if r not in skipped):
-                # the excluded point of history_solve_least_squares (`0 < tol ∨ PivNZ`): an exactly zero pivot
-                # (here produced by scale_R(0)) passes the threshold test `|R| < tol` for tol ≤ 0
+                # only possible for tol < 0 (`|R| <= tol` skips every exactly zero pivot when tol ≥ 0)
                 STATS['zero_pivot_divisions'] += 1
-                return (f'solve_col(b, x, tol = {tol!r}) divides by an exactly zero pivot (|R[r,r]| < tol is false for '
-                        f'tol ≤ 0): x = {x[:K]} is not finite although every vector minimises ‖A x − b‖ for the '
-                        f'rank-deficient window', KEY_ZPIV)
+                if tol < 0:
+                    return None
+                return (f'solve_col(b, x, tol = {tol!r}) divides by an exactly zero pivot: x = {x[:K]}', KEY_ZPIV)
             return f'solve_col returned non-finite entries {x[:K]} on a finite factorisation'
         qtb = Q.T @ bb
         for r in range(K):
@@ -411,6 +412,21 @@ def qr_monitor(kind, t, o, S):
                 return (f'row {r} of R x = Qᵀb violated: (R x)[{r}] = {lhs!r}, (Qᵀb)[{r}] = {qtb[r]!r}')
         if skipped:
             STATS['solve_thresholded'] += 1
+            # dependent columns (exactly zero pivots, zero columns of Q): when nothing else is skipped the
+            # result must still be a least-squares minimiser of ‖A x − b‖ — monitored, not proved
+            if all(R[r, r] == 0.0 for r in skipped) and len(skipped) < K:
+                keep = [r for r in range(K) if r not in skipped]
+                dead = all(not Q[:, r].any() and not R[r, :].any() for r in skipped)
+                csub = window_cond(Q[:, keep] @ R[np.ix_(keep, keep)])
+                if dead and csub <= 1e5 and np.linalg.norm(A, 2) > 0:
+                    res = A @ xs - bb
+                    ne = np.linalg.norm(A.T @ res)
+                    scale = np.linalg.norm(A, 2) * (np.linalg.norm(A, 2) * np.linalg.norm(xs) + np.linalg.norm(bb))
+                    STATS['solve_dependent_checked'] += 1
+                    if not ne <= 1e-9 * csub * scale + 1e-290:
+                        return (f'dependent window, only the exactly zero pivots {skipped} skipped: normal-equation '
+                                f'residual ‖Aᵀ(Ax − b)‖ = {ne:.3e} > {1e-9 * csub * scale:.3e}: x is not a '
+                                f'least-squares minimiser')
             return None
         cond = S.get('cond', math.inf)
         if cond <= 1e5:
@@ -573,10 +589,10 @@ def aa_monitor(kind, t, o, st):
     # γ_LS solves the least-squares problem over the window (unless a pivot was thresholded)
     R = np.array(d['R']).reshape(K, K).T
     tol = d['max'] * Sa['mdf']
-    if any(abs(R[r, r]) < tol for r in range(K)):
+    if any(abs(R[r, r]) <= tol for r in range(K)):
         for r in range(K):
-            if abs(R[r, r]) < tol and gam[r] != 0.0:
-                return f'pivot {r} below max_eig·min_div_fac but γ_LS[{r}] = {gam[r]!r} ≠ 0'
+            if abs(R[r, r]) <= tol and gam[r] != 0.0:
+                return f'pivot {r} not above max_eig·min_div_fac but γ_LS[{r}] = {gam[r]!r} ≠ 0'
         STATS['aa_ls_skipped'] += 1
         return None
     cond = Sa.get('cond', math.inf)
@@ -678,7 +694,8 @@ def main(argv):
                        'Alpaqa/Proofs/C10Add.lean', 'Alpaqa/Proofs/C10Misc.lean',
                        'Alpaqa/Proofs/C10Remove.lean', 'Alpaqa/Proofs/C10Solve.lean',
                        'Alpaqa/Proofs/C10Anderson.lean', 'Alpaqa/Proofs/C10History.lean', 'Alpaqa/Proofs/C10Pivot.lean',
-                       'Alpaqa/Proofs/C10Trunc.lean', 'Alpaqa/Proofs/C10Givens.lean', 'Alpaqa/Proofs/Basic.lean',
+                       'Alpaqa/Proofs/C10Trunc.lean', 'Alpaqa/Proofs/C10Givens.lean', 'Alpaqa/Proofs/C10Dead.lean',
+                       'Alpaqa/Proofs/Basic.lean',
                        'Driver/C10.lean'],
         harness_name='c10', harness_sources=[os.path.join(C.VERIF, 'harness', 'c10.cpp')],
         gen_ops=gen_ops, monitor=monitor, nontrivial=nontrivial, extra_stage=extra_stage,
@@ -687,7 +704,8 @@ def main(argv):
             'Lean 4.33 kernel + Mathlib (axioms: propext, Classical.choice, Quot.sound)',
             'gen/cxxparse.py + gen/lean_emit.py + gen/gen_c10.py (translator: r_succ/r_pred, ring_head/tail, '
             'ring_iter argument order, CircularIndexIterator ++/--, CircularRange begin/end, index updates of '
-            'add_column / remove_column / reset, sweep and inner-loop headers, η, reorthogonalisation test, '
+            'add_column / remove_column / reset, sweep and inner-loop headers, η, reorthogonalisation test, the '
+            'normalisation guard `norm_q > 0` (its two branches shape-checked), '
             'min/max_eig updates, pivot threshold test, Anderson α formulas / full test / threshold / m_AA; '
             'loop skeletons of remove_column, solve_col, scale_R, minimize_update_anderson, AndersonAccel::'
             'reset/initialize/resize are shape-checked against the expected AST)',
@@ -697,7 +715,8 @@ def main(argv):
             'c²+s²=1, r = c·p − s·q, s·p + c·q = 0, and the contract is PROVED (givensEigen_meets_contract, lawful sqrt) '
             'for givensEigen, the line-by-line port the driver runs; trusted: that this port is Eigen\'s real-scalar '
             'makeGivens (read off Eigen/src/Jacobi/Jacobi.h; bit-exact agreement with the real code on every run)',
-            'std::sqrt enters the theorems only through SqrtLaw (sqrt a · sqrt a = a for a ≥ 0)',
+            'std::sqrt enters the theorems only through SqrtLaw (sqrt a · sqrt a = a for a ≥ 0) and SqrtNonneg '
+            '(sqrt a ≥ 0)',
             'theorems are over ordered fields (real-number semantics); IEEE rounding, conditioning and the '
             'benefit of reorthogonalisation are not proved — monitored (‖QR−A‖, ‖QᵀQ−I‖, normal equations)',
         ],
